@@ -194,6 +194,9 @@ func (d *DeviceRemote) UseCases() []model.UseCaseInformationDataType {
 
 func (d *DeviceRemote) UpdateDevice(description *model.NetworkManagementDeviceDescriptionDataType) {
 	if description != nil {
+		d.muxValues.Lock()
+		defer d.muxValues.Unlock()
+
 		if description.DeviceAddress != nil && description.DeviceAddress.Device != nil {
 			d.address = description.DeviceAddress.Device
 		}
